@@ -29,6 +29,13 @@ def direct(eng, chk, objs, ds, k, impl_t=None):
 
 
 def perm_dup(eng, chk, objs, k, base_tree):
+    try:
+        return _perm_dup(eng, chk, objs, k, base_tree)
+    except Exception as e:
+        return ["no-error: a permutation / duplication of the values raised %r" % (e,)]
+
+
+def _perm_dup(eng, chk, objs, k, base_tree):
     bad = []
     if len(objs) >= 2:
         idx = list(range(len(objs)))
